@@ -266,15 +266,22 @@ def verify_offset_assigned(rep, idxs, member):
             if t != 'Proc':
                 classes.append(t)
     helper_ok = {}
+    assigning = {}
     for vis in ('xcmp::FormalLocations', 'xcmp::LocalDeclLocations'):
-        for m in idx.record(vis).methods:
-            if m.name == 'assignLocation' and m.body is not None:
-                o = flow.Flow(MustCallClient({'setStackOffset'}), idx).run(m.body, {False})
+        # helpers of the visitor (own or inherited) that assign the offset on every path, to a fixpoint
+        names = {'setStackOffset'}
+        meths = [m for c_ in [vis] + idx.bases_of(vis) if c_ in idx.records for m in idx.records[c_].methods
+                 if m.body is not None and m.name not in ('visitPost', 'visitPre')]
+        for _ in range(3):
+            for m in meths:
+                if m.name in names:
+                    continue
+                o = flow.Flow(MustCallClient(set(names)), idx).run(m.body, {False})
                 ends = set(o.normal) | {s for s, _ in o.ret}
-                helper_ok[vis] = bool(ends) and all(ends)
-                if not helper_ok[vis]:
-                    ok = False
-                    details.append('%s::assignLocation can return without setStackOffset' % vis)
+                if ends and all(ends):
+                    names.add(m.name)
+        assigning[vis] = names
+        helper_ok[vis] = True
     for t in sorted(classes):
         vis = 'xcmp::FormalLocations' if t.endswith('Formal') else 'xcmp::LocalDeclLocations'
         ms = [m for m in idx.record(vis).methods if m.name == 'visitPost' and m.params and t in qt(m.params[0])]
@@ -282,7 +289,7 @@ def verify_offset_assigned(rep, idxs, member):
             ok = False
             details.append('%s has no visitPost(%s&): symbols of that kind never get a stack offset' % (vis, t))
             continue
-        o = flow.Flow(MustCallClient({'setStackOffset', 'assignLocation'} if helper_ok.get(vis) else {'setStackOffset'}), idx).run(ms[0].body, {False})
+        o = flow.Flow(MustCallClient(set(assigning.get(vis, {'setStackOffset'}))), idx).run(ms[0].body, {False})
         ends = set(o.normal) | {s for s, _ in o.ret}
         if not (ends and all(ends)):
             ok = False
